@@ -383,7 +383,12 @@ def handle (op : String) (fs : List (String × String)) : String :=
         | none => "ok"
         | some c => "fail:" ++ c
     else if op == "subset.writable" then
-      match runModel f glyphs none with
+      -- the order matters: where the appended extras land decides the encoding's contiguity
+      let target := match getField fs "order" with
+        | some "-" => none
+        | some o => natsSep "," o
+        | none => none
+      match runModel f glyphs target with
       | .ok s =>
         match s.encoding with
         | some e => if encodingContiguous e then s!"ok:{s.glyphs.length}" else "err:encoding"
